@@ -252,7 +252,15 @@ def replay(iset, memarch, nregions, inputs, ob):
         from spec import encodings as ENC1
         want1 = 'arm' if iset == 'arm' else ('t16' if iset == 'thumb16' else 't32')
         mrows = [r for r in ENC1.rows_for(type(eo).__name__) if r.iset == want1 and r.match(inputs['instr']) and getattr(r, 'mock', False)]
-    if kind in ('safe.host', 'safe.escape'):
+    if kind == 'safe.host' and 'LSInstructionSyndrome' in ob.get('label', ''):
+        try:
+            iss = cpu.ls_instruction_syndrome()
+            lines.append('LSInstructionSyndrome() of the decoded instruction = %r' % (iss,))
+            bad = not (isinstance(iss, int) and 0 <= iss <= 0x1FF)
+        except Exception as e2:      # noqa
+            lines.append('LSInstructionSyndrome() raised %s: %s' % (type(e2).__name__, e2))
+            bad = True
+    elif kind in ('safe.host', 'safe.escape'):
         bad = exc is not None and not isinstance(exc, NotImplementedError)
     elif kind == 'post.gate':
         hooks = [g for g in gates if g[0] != 'coproc_accepted']
